@@ -11,7 +11,6 @@ ASSUMPTIONS = ["binary64 performs the code's arithmetic exactly on the lattice; 
                "exact ties of a float-accumulated statistic against a threshold (goto mean/std, information-gain bin "
                "edges) are reported by the model and not compared"]
 UNPROVED = [
-    "C02.Beat.information_gain_self_statement: information gain(x, x) = 1 for >= 2 strictly increasing beats",
     "C02 p_score_self is stated in terms of the window / train length the code computes (pScoreParts), with the "
     "decidable side condition 0 <= win < N",
     "C04 pscore: McKinney's pair count is proved for 0 <= win < N (always the case for thresholds in [0, 1]: "
